@@ -3,6 +3,7 @@
 package scen
 
 import (
+	"crypto/rand"
 	"errors"
 	"net"
 	"sync"
@@ -37,6 +38,11 @@ type rawServer struct {
 	// OnOpen, if set, is called for OPN requests; returning false suppresses the default answer.
 	OnOpen func(c *rawSrvConn, reqID uint32, req *ua.OpenSecureChannelRequest) bool
 	nextChannel uint32
+	// Sec, if set to a secured configuration, makes the server speak that
+	// policy and mode with the reference implementation of the cryptography.
+	Sec *secCfg
+	// OnProtocolError is called when a received chunk does not open or parse.
+	OnProtocolError func(c *rawSrvConn, err error)
 }
 
 type rawSrvConn struct {
@@ -50,6 +56,10 @@ type rawSrvConn struct {
 	reasm     *refcodec.Reassembler
 	Hello     refcodec.Hello
 	closed    bool
+	// secured mode state
+	pol         *refcodec.Policy
+	clientNonce []byte
+	tokens      map[uint32]*tokenKeys // token id -> keys
 }
 
 func newRawServer(s *sim.Sim, addr string) (*rawServer, error) {
@@ -108,8 +118,18 @@ func (c *rawSrvConn) serve() {
 		if err != nil {
 			return
 		}
-		ch, err := refcodec.ParsePlainChunk(fr)
+		plain, err := c.open(fr)
 		if err != nil {
+			if c.srv.OnProtocolError != nil {
+				c.srv.OnProtocolError(c, err)
+			}
+			return
+		}
+		ch, err := refcodec.ParsePlainChunk(plain)
+		if err != nil {
+			if c.srv.OnProtocolError != nil {
+				c.srv.OnProtocolError(c, err)
+			}
 			return
 		}
 		switch ch.Type {
@@ -124,6 +144,7 @@ func (c *rawSrvConn) serve() {
 			if !ok {
 				return
 			}
+			c.clientNonce = req.ClientNonce
 			if c.srv.OnOpen != nil && !c.srv.OnOpen(c, ch.RequestID, req) {
 				continue
 			}
@@ -157,12 +178,27 @@ func (c *rawSrvConn) AnswerOpen(reqID uint32, req *ua.OpenSecureChannelRequest) 
 	if req.RequestType == ua.SecurityTokenRequestTypeRenew && c.srv.FreshTokenOnRenew {
 		c.TokenID++
 	}
+	nonce := []byte{}
+	if c.pol != nil {
+		nonce = make([]byte, c.pol.NonceLen)
+		rand.Read(nonce)
+	}
 	resp := &ua.OpenSecureChannelResponse{
 		ResponseHeader: rawRespHeader(req.RequestHeader.RequestHandle, ua.StatusOK),
 		SecurityToken:  &ua.ChannelSecurityToken{ChannelID: c.ChannelID, TokenID: c.TokenID, CreatedAt: time.Now(), RevisedLifetime: life},
-		ServerNonce:    []byte{},
+		ServerNonce:    nonce,
 	}
 	c.respondAs("OPN", reqID, resp)
+	if c.pol != nil {
+		tk := &tokenKeys{channelID: c.ChannelID, tokenID: c.TokenID}
+		tk.client, tk.server = c.pol.DeriveKeys(req.ClientNonce, nonce)
+		c.mu.Lock()
+		if c.tokens == nil {
+			c.tokens = map[uint32]*tokenKeys{}
+		}
+		c.tokens[c.TokenID] = tk
+		c.mu.Unlock()
+	}
 }
 
 func rawRespHeader(handle uint32, code ua.StatusCode) *ua.ResponseHeader {
@@ -214,10 +250,59 @@ func (c *rawSrvConn) SendBody(typ string, reqID uint32, body []byte, cuts []int)
 		if i == len(parts)-1 {
 			ch.ChunkType = 'F'
 		}
-		out = append(out, ch.EncodePlain()...)
+		fr, err := c.seal(ch)
+		if err != nil {
+			return err
+		}
+		out = append(out, fr...)
 	}
 	_, err := c.nc.Write(out)
 	return err
+}
+
+// open turns a received frame into the plain layout.
+func (c *rawSrvConn) open(fr []byte) ([]byte, error) {
+	sec := c.srv.Sec
+	if sec == nil || sec.Policy == "None" {
+		return fr, nil
+	}
+	if c.pol == nil {
+		c.pol = refcodec.Policies[sec.Policy]
+	}
+	ck, sk := key("client", sec.ClientBits), key("server", sec.ServerBits)
+	if string(fr[:3]) == "OPN" {
+		return c.pol.OpenAsym(fr, sk.Key, &ck.Key.PublicKey)
+	}
+	if len(fr) < 16 {
+		return nil, errors.New("short secured chunk")
+	}
+	c.mu.Lock()
+	tk := c.tokens[le32(fr[12:])]
+	c.mu.Unlock()
+	if tk == nil {
+		return nil, errors.New("chunk for unknown token")
+	}
+	return c.pol.OpenSym(fr, tk.client, refcodec.Mode(sec.Mode))
+}
+
+// seal protects an outgoing chunk. The caller holds c.mu.
+func (c *rawSrvConn) seal(ch *refcodec.Chunk) ([]byte, error) {
+	sec := c.srv.Sec
+	if sec == nil || sec.Policy == "None" {
+		return ch.EncodePlain(), nil
+	}
+	ck, sk := key("client", sec.ClientBits), key("server", sec.ServerBits)
+	if ch.Type == "OPN" {
+		ch.PolicyURI = c.pol.URI
+		ch.Cert = sk.Cert
+		ch.Thumb = thumbprint(ck.Cert)
+		return c.pol.SealAsym(ch.EncodePlain(), sk.Key, &ck.Key.PublicKey)
+	}
+	tk := c.tokens[ch.TokenID]
+	if tk == nil {
+		return nil, errors.New("no keys for token")
+	}
+	return c.pol.SealSym(ch.EncodePlain(), tk.server, refcodec.Mode(sec.Mode))
 }
 
 // NextSeq reserves and returns the next outgoing sequence number.
